@@ -128,6 +128,22 @@ def streams(ctx):
                 ref7 = progen.run_reference(prog, g, f7_quirk=True) if progen.has_while_continue(prog) else None
                 ctx.witness('structured-reading', {'text': text, 'globals': g, 'prog': prog}, ref, progen.strip_hidden(impl),
                             explained_by_f7=(ref7 is not None and ref7 == progen.strip_hidden(impl)))
+    del models
+    stream_history(ctx, parser, cases, impls)
+
+
+def stream_history(ctx, parser, cases, impls):
+    """The outcome of parse+execute must not depend on what the process did before: re-run every program in sequence WITHOUT keeping
+    earlier models alive (a cache keyed by object identity, or any state kept between calls, shows up only in such a history)."""
+    st = ctx.stream('history', 'the same programs parsed, executed and dropped one after another in one process; outcome compared with '
+                               'the first run (models kept alive); non-trivial = program takes at least one jump (has a loop or if)')
+    for (prog, g, stats), first in zip(cases, impls):
+        text = '\n'.join(progen.render(prog))
+        again = progen.run_impl(parser.parse_script(text), g, max_statements=400)
+        st.case(text, nontrivial=any(k in stats for k in ('if', 'while', 'for')), tags=['ok' if 'error' not in again else 'error'])
+        if again != first:
+            ctx.witness('history-independence', {'text': text, 'globals': g}, first, again, explained_by_f7=False)
+            return
 
 
 def disagreement_known(d, known):
